@@ -710,6 +710,49 @@ func init() {
 				return w
 			})
 		}
+		// the 16-bit word count: blocks of exactly 255 / 256 / 257 words (carry into the high byte)
+		// and, in the thorough tier, of 65535 words (the limit; the model's walk is quadratic in the
+		// number of elements, so the full-size one-byte block costs about a minute)
+		wordCounts := []int{255, 256, 257, 4096}
+		if x.Thorough() {
+			wordCounts = append(wordCounts, 65534, 65535)
+		}
+		for _, words := range wordCounts {
+			for form := 1; form <= 3; form++ {
+				words, form := words, form
+				emit(func(c *Case) *WireDesc {
+					w := genWire(c.R, 8, false)
+					n := words * 4
+					if c.R.Bool() && form != 3 {
+						n -= c.R.Intn(4) // up to 3 bytes short: the alignment pads fill the block
+					}
+					switch form {
+					case 1: // 16-byte elements, the remainder as pads in front
+						var items []WItem
+						for k := 0; k < n%17; k++ {
+							items = append(items, padItem())
+						}
+						for k := 0; k < n/17; k++ {
+							items = append(items, elem(1+k%14, c.R.Bytes(16)))
+						}
+						w.Ext = WExt{Form: 1, Items: items}
+					case 2: // 255-byte elements
+						var items []WItem
+						for k := 0; k < n%257; k++ {
+							items = append(items, padItem())
+						}
+						for k := 0; k < n/257; k++ {
+							items = append(items, elem(1+k%255, c.R.Bytes(255)))
+						}
+						w.Ext = WExt{Form: 2, Items: items}
+					default:
+						w.Ext = WExt{Form: 3, Profile: 0x1234, Words: c.R.Bytes(words * 4)}
+					}
+					c.Tag("block=large")
+					return w
+				})
+			}
+		}
 		// The known-finding region (one-byte block with the reserved id 15) comes LAST and in a fixed,
 		// small number (< 150 in every tier): the engine keeps only the first 64 non-OK lines per
 		// worker and the 200 shortest overall, so a large number of known-finding instances would
